@@ -25,10 +25,12 @@ _RMTREE = shutil.rmtree
 _SCANDIR = os.scandir
 _LSTAT = os.lstat
 
-REL = {"a": "a", "ag": "a/g", "an": "a/n", "g": "g", "n": "n", "ng": "n/g", "e": "e", "eg": "e/g"}
+# real names: the absent paths n and a/n are *string* prefixes of the pre-existing siblings nx and a/nx
+# (a permission check by string prefix instead of by path component would unlock them)
+REL = {"a": "a", "ag": "a/nx", "an": "a/n", "g": "nx", "n": "n", "ng": "n/nx", "e": "e", "eg": "e/nx"}
 IDS = {v: k for k, v in REL.items()}
 ORDER = ["a", "ag", "an", "g", "n", "ng", "e", "eg"]
-TREE0 = {"a": None, "a/g": "8", "g": "7", "e": None}  # None = directory
+TREE0 = {"a": None, "a/nx": "8", "nx": "7", "e": None}  # None = directory
 OSFLAGS = {
     "RD": os.O_RDONLY,
     "WR": os.O_WRONLY,
